@@ -246,6 +246,24 @@ pub fn run_op(c: &mut Case, idx: usize, toks: &[&str]) -> String {
             c.set_times.insert(t(ns));
             on!(p, |p: VfsPath| res_s(&p.set_modification_time(time_from_ns(t(ns))), unit_s))
         }
+        // a setter called with exactly the value metadata() reports for that field (a request that changes nothing)
+        ["setsame", field, p] => on!(p, |p: VfsPath| match p.metadata() {
+            Err(e) => format!("err:{}", err_s(&e)),
+            Ok(m) => {
+                let cur = match *field { "c" => m.created, "m" => m.modified, _ => m.accessed };
+                match cur {
+                    None => "ok:optstr:none".to_string(),
+                    Some(tm) => res_s(
+                        &match *field {
+                            "c" => p.set_creation_time(tm),
+                            "m" => p.set_modification_time(tm),
+                            _ => p.set_access_time(tm),
+                        },
+                        unit_s,
+                    ),
+                }
+            }
+        }),
         ["setatime", p, ns] => {
             c.set_times.insert(t(ns));
             on!(p, |p: VfsPath| res_s(&p.set_access_time(time_from_ns(t(ns))), unit_s))
